@@ -357,6 +357,13 @@ def select_gate(run):
                     'Candidates.select of droop/candidates.py, translated, is no longer the table lean/Props/C09Prog.lean proves the model selectors equal to')
 
 
+def tie_gate(run):
+    return gen_gate(run, 'translator_tie', 'gen_tie', 'table',
+                    'Gen.tieTable = C07.tieTable by rfl; breakTie_is_program (lean/Props/C07Tie.lean)',
+                    'breakTie of wigm / wigm_prf / cfer / meek / meek_prf / mpls / qpq is no longer the procedure (single candidate returned silently; else first '
+                    'of byTieOrder, one tie action, return it) that lean/Props/C07Tie.lean proves the model to carry out')
+
+
 def status_gate(run):
     return gen_gate(run, 'translator_status', 'gen_status', 'tables',
                     'Gen.statusWrites = C09.statusWrites, Gen.unelectCallers = C09.unelectCallers, Gen.unpendAsserts = C09.unpendAsserts by rfl; '
@@ -662,7 +669,7 @@ def C03(run):
     count_property(run, dict(rules=STAT + ['wigm', 'cfer-batch', 'wigm-prf-batch', 'mpls', 'scotland'],
                              keys=['C04q', 'C06r', 'C07b', 'C07l', 'C07t', 'C07s'], proj=proj_C03, model_is_spec=True,
                              options_fn=wigm_fixed4, quick=9000, thorough=150000,
-                             extra_gate=lambda run: quota_gate(run) + formula_gate(run) + guard_gate(run) + transfer_gate(run) + keys_gate(run) + select_gate(run) + status_gate(run)))
+                             extra_gate=lambda run: quota_gate(run) + formula_gate(run) + guard_gate(run) + transfer_gate(run) + keys_gate(run) + select_gate(run) + status_gate(run) + tie_gate(run)))
 
 
 @prop('C04')
@@ -705,7 +712,7 @@ def retie_line(item):
 
 @prop('C07')
 def C07(run):
-    spec = dict(rules=ALL, keys=['EXC', 'C07b', 'C07l', 'C07t', 'C07s'], proj=proj_C07, quick=5000, thorough=150000, extra_gate=lambda run: guard_gate(run) + keys_gate(run),
+    spec = dict(rules=ALL, keys=['EXC', 'C07b', 'C07l', 'C07t', 'C07s'], proj=proj_C07, quick=5000, thorough=150000, extra_gate=lambda run: guard_gate(run) + keys_gate(run) + tie_gate(run),
                 families=['plain', 'symmetric', 'symmetric', 'sure_losers', 'on_quota', 'chains', 'few_supported', 'crossover', 'threeway'])
     count_property(run, spec)
     # when no tie is logged the record does not depend on the tie-break order (implementation vs implementation)
